@@ -20,6 +20,28 @@ type abortEvent struct {
 	Index  uint64
 	Exit   int
 	Stderr string
+	Proc   procInfo
+}
+
+// procInfo says which worker process executed a run: its stripe (w of n) and the first index
+// that process executed.  The runs of the stripe from ProcFrom up to a violating run are what
+// the library had seen in that process before the violation.
+type procInfo struct {
+	W, N     int
+	ProcFrom uint64
+}
+
+func (p procInfo) prelude(index uint64) []uint64 {
+	var out []uint64
+	if p.N <= 0 {
+		return nil
+	}
+	for j := p.ProcFrom; j < index; j++ {
+		if j%uint64(p.N) == uint64(p.W) {
+			out = append(out, j)
+		}
+	}
+	return out
 }
 
 type batchResult struct {
@@ -32,6 +54,7 @@ type batchResult struct {
 	runs       uint64
 	nontrivial uint64
 	violations []RunResult
+	violProc   []procInfo
 	aborts     []abortEvent
 	samples    []RunResult
 	infra      []string
@@ -182,6 +205,7 @@ func runWorkers(exe string, sc *scenario, tier string, seed, total uint64, nwork
 							if json.Unmarshal([]byte(sp[2]), &r) == nil {
 								br.mu.Lock()
 								br.violations = append(br.violations, r)
+								br.violProc = append(br.violProc, procInfo{W: w, N: nworkers, ProcFrom: from})
 								br.mu.Unlock()
 								nviol++
 							}
@@ -251,7 +275,7 @@ func runWorkers(exe string, sc *scenario, tier string, seed, total uint64, nwork
 					br.addInfra(fmt.Sprintf("worker %d died (exit %d) outside any run: %s", w, code, tail(stderr.String(), 2000)))
 					return
 				}
-				ae := abortEvent{Index: uint64(open), Exit: code, Stderr: stderr.String()}
+				ae := abortEvent{Index: uint64(open), Exit: code, Stderr: stderr.String(), Proc: procInfo{W: w, N: nworkers, ProcFrom: from}}
 				if !sc.AbortIsViolation && classifyDeath(ae.Stderr) == "oom-abort" {
 					// an out-of-memory abort is C09/C10's subject, not this property's: count and go on
 					br.mu.Lock()
@@ -294,7 +318,7 @@ func workerEnv() []string {
 		}
 		out = append(out, e)
 	}
-	out = append(out, "GORACE=halt_on_error=1 exitcode=66", "GOMAXPROCS=2")
+	out = append(out, "GORACE=halt_on_error=1 exitcode=66 atexit_sleep_ms=0", "GOMAXPROCS=2")
 	if v := os.Getenv("VERIF_GOMAXPROCS"); v != "" {
 		out[len(out)-1] = "GOMAXPROCS=" + v
 	}
@@ -449,12 +473,13 @@ func cmdRun(args []string) int {
 	type cand struct {
 		index uint64
 		class string
+		proc  procInfo
 	}
 	var cands []cand
-	sort.Slice(br.violations, func(i, j int) bool { return br.violations[i].Index < br.violations[j].Index })
-	for _, v := range br.violations {
-		cands = append(cands, cand{v.Index, v.Violation.Class})
+	for i, v := range br.violations {
+		cands = append(cands, cand{v.Index, v.Violation.Class, br.violProc[i]})
 	}
+	sort.SliceStable(cands, func(i, j int) bool { return cands[i].index < cands[j].index })
 	sort.Slice(br.aborts, func(i, j int) bool { return br.aborts[i].Index < br.aborts[j].Index })
 	for _, a := range br.aborts {
 		f := classifyDeath(a.Stderr)
@@ -462,14 +487,14 @@ func cmdRun(args []string) int {
 			fmt.Fprintf(os.Stderr, "INFRASTRUCTURE ERROR: worker died in run %d (exit %d) for an unrecognised reason:\n%s\n", a.Index, a.Exit, tail(a.Stderr, 3000))
 			return exitInfra
 		}
-		cands = append(cands, cand{a.Index, *prop + "/" + f})
+		cands = append(cands, cand{a.Index, *prop + "/" + f, a.Proc})
 	}
 	norepro := 0
 	for _, cd := range cands {
 		if reported[cd.class] || len(reported) >= 3 {
 			continue
 		}
-		path, code := handleViolation(exe, sc, *tier, seed, cd.index, cd.class, *replays, *known)
+		path, code := handleViolation(exe, sc, *tier, seed, cd.index, cd.class, *replays, *known, cd.proc)
 		if code == exitInfra {
 			return exitInfra
 		}
